@@ -344,6 +344,38 @@ fn run(ctx: &mut Ctx) {
             });
         }
     }
+    // cyclic-type family: two expressions over an unannotated closure parameter forced to one type
+    // (every pair x 4 contexts); almost all are ill-typed - the typer must answer, not recurse forever
+    {
+        let over_h = ["h", "h(1)", "h(h)", "h(1)(2)", "(h, h)", "(h, 1)", "|y| h", "|y| h(y)", "ref(h)", "[h]", "[h(1)]", "h(h(1))", "vec_push(vec_new(), h)"];
+        let mut k = 0u64;
+        for a in over_h.iter() {
+            for b in over_h.iter() {
+                for ctxk in 0..4 {
+                    k += 1;
+                    if !ctx.mine(300_000 + k) {
+                        continue;
+                    }
+                    if tier == crate::runner::Tier::Quick && k % 2 == 1 {
+                        continue;
+                    }
+                    let body = match ctxk {
+                        0 => format!("if true {{ {} }} else {{ {} }}", a, b),
+                        1 => format!("match 1 {{ 0 => {}, _ => {} }}", a, b),
+                        2 => format!("{{ let r = {}; let s = ref(r); let _ = ref_set(s, {}); r }}", a, b),
+                        _ => format!("{{ let r = {}; if true {{ r }} else {{ {} }} }}", a, b),
+                    };
+                    let src = format!("fn main() -> unit {{\n    let f = |h| {};\n    ()\n}}\n", body);
+                    ctx.case(&format!("cyclic/{}", k), |c| {
+                        check_source(c, "cyclic_types", &src);
+                        if k % 97 == 0 {
+                            c.sample(json!({"workload":"cyclic_types","input":src}));
+                        }
+                    });
+                }
+            }
+        }
+    }
     for (i, (id, text)) in util::known_witnesses("C04").iter().enumerate() {
         if ctx.mine(i as u64) {
             ctx.case(&format!("witness/{}", id), |c| check_source(c, "witness", text));
